@@ -114,7 +114,9 @@ def gen_addsub(g, shapes, n_extra):
 
 def weights(r, cols, wstyle):
     if cols == 1:
-        return [1.0], "single"
+        # a positive weight vector with one entry; the property's sets sum to one, other positive values exercise
+        # "the weight of a single column is not read"
+        return [r.choice([1.0, 1.0, 1.0, 0.5, 2.0])], "single"
     if wstyle == "uniform":
         return [1.0 / cols] * cols, wstyle
     if wstyle == "positive":
@@ -394,7 +396,7 @@ def check_mean(idx, cases, hres, dres, stats, problems):
 
 # ------------------------------------------------------------------ run
 
-WITNESS = "dmean 1 1 %s %s" % (hexd(7.0), hexd(1.0))      # `mean_one_column_counterexample`
+WITNESS = "dmean 1 1 %s %s" % (hexd(7.0), hexd(1.0))      # witness of the defect repaired in e5e0548 (regression case)
 
 
 def nontrivial(line):
@@ -423,7 +425,7 @@ def run(ctx):
             m.update({"kind": ln.split()[0], "style": "replay", "shape": "%sx%s" % tuple(ln.split()[1:3])})
             cases.append((ln, m))
     else:
-        # counterexample witnesses of the Lean tree and the regression corpus run first
+        # regression witness and corpus run first
         cases.append((WITNESS, {"kind": "dmean", "style": "witness", "role": "base", "shape": "1x1", "wstyle": "single"}))
         corpus = vlib.VERIF / "corpus" / "C19" / "cases.txt"
         if corpus.exists():
@@ -488,8 +490,9 @@ def run(ctx):
         else:
             inputs, metas = [cases[idx][0]], [keep]
         if key == SHORTCUT_KEY:
-            what = ("directional_mean with exactly one column returns the column as is (not wrapped into (-pi, pi], weight ignored): "
-                    "directional_mean([7.0], w=[1.0]) = 7.0 whereas the argument of the weighted resultant is 0.7168...; first failing predicate here: " + what)
+            what = ("regression of the defect repaired in e5e0548: directional_mean with exactly one column returns the column as is (not wrapped "
+                    "into (-pi, pi]): directional_mean([7.0], w=[1.0]) = 7.0 whereas the argument of the weighted resultant is 0.7168...; "
+                    "first failing predicate here: " + what)
         ctx.violation(key, "%s (%d failing rows/entries in this run)" % (what, len(lst)),
                       {"harness": "h_dir", "input_lines": inputs, "metas": metas, "observed": [cases[idx][2][:1500]],
                        "expected": "see `what`; model output: " + cases[idx][3][:400]})
@@ -519,7 +522,7 @@ def run(ctx):
         "model_vs_impl_disagreements": len(corr_bad), "property_failures_on_impl": len(prop_bad),
         "sanitizer_crashes": len(logs),
         "exhaustive": False,
-        "counterexample_witnesses_replayed": [WITNESS],
+        "regression_witnesses_replayed": [WITNESS],
     })
     ctx.assumptions += [
         "floating point: a wrapped angle computed from doubles a, b is accepted within 8*eps*(|a|+|b|) + 16*eps (mod 2 pi); a mean within "
